@@ -45,6 +45,43 @@ pub enum Spec {
     Adversarial { world: World, owners: Vec<KeySpec>, twist: Twist },
     /// rule application with unusual paths / patterns / prefixes
     Rules { item: crate::props::c03::Spec },
+    /// `run_command` (what `in_toto_run` and inspections execute) on a command that writes `stderr_kib` KiB to its
+    /// standard error and `stdout_kib` KiB to its standard output (in that or the other order) and exits with `exit`
+    Command { stderr_kib: u16, stdout_kib: u16, stderr_first: bool, exit: u8 },
+}
+
+/// (state, wchan) of every process whose ancestor chain contains `root` (root included).
+fn descendants(root: u32) -> Vec<(u32, String, String)> {
+    let mut procs: Vec<(u32, u32, String)> = vec![];
+    if let Ok(rd) = std::fs::read_dir("/proc") {
+        for e in rd.flatten() {
+            let Some(pid) = e.file_name().to_str().and_then(|s| s.parse::<u32>().ok()) else { continue };
+            let Ok(stat) = std::fs::read_to_string(format!("/proc/{}/stat", pid)) else { continue };
+            // pid (comm) state ppid ...
+            let Some(close) = stat.rfind(')') else { continue };
+            let rest: Vec<&str> = stat[close + 1..].split_whitespace().collect();
+            if rest.len() < 2 {
+                continue;
+            }
+            procs.push((pid, rest[1].parse().unwrap_or(0), rest[0].to_string()));
+        }
+    }
+    let mut set = vec![root];
+    let mut grew = true;
+    while grew {
+        grew = false;
+        for (pid, ppid, _) in &procs {
+            if set.contains(ppid) && !set.contains(pid) {
+                set.push(*pid);
+                grew = true;
+            }
+        }
+    }
+    procs
+        .iter()
+        .filter(|(pid, _, _)| set.contains(pid))
+        .map(|(pid, _, st)| (*pid, st.clone(), std::fs::read_to_string(format!("/proc/{}/wchan", pid)).unwrap_or_default()))
+        .collect()
 }
 
 #[derive(Clone, Debug, Serialize, Deserialize, PartialEq, Eq)]
@@ -391,7 +428,7 @@ impl Property for C14 {
          char boundary at byte 8) in link and layout signatures, step names with glob metacharacters / path separators / control characters / \
          empty, non-normalised artifact paths (./x, a/../b, /abs, empty, ..) under MATCH/CREATE/.. rules, empty collections, thresholds and \
          return values at and beyond u32/i32/u64, extra files in the link directory (garbage, deep nesting, other metadata type), a step delegated to a sub-layout that delegates the same step to the same functionary while its link directory is a symbolic link back to the link directory (., absolute, ../dir, itself, dangling), run through \
-         in_toto_verify; adversarial paths/patterns/prefixes through rule application; (b) mutational: bit flips, truncations, dictionary \
+         in_toto_verify; run_command (what in_toto_run and inspections execute) on commands writing 0-1024 KiB to stderr and 0-256 KiB to stdout in either order, called in a process of its own: if that process does not finish, the check looks at what the processes are blocked on (library in a pipe read, command in a pipe write = cannot make progress) instead of trusting a time limit; adversarial paths/patterns/prefixes through rule application; (b) mutational: bit flips, truncations, dictionary \
          token insertion, range deletion/duplication, byte overwrite, splices over generated valid documents of every type and over the \
          repository's Python-made fixtures, OpenSSL-made SPKI/PKCS#8 files, PEM, hex, key ids and PAE encodings, offered to every parser, key \
          importer (from_spki, from_pem_spki, from_pkcs8, from_ed25519, from_ecdsa, hex decoders, KeyId::prefix, try_from_bytes, \
@@ -419,7 +456,9 @@ impl Property for C14 {
             Spec::Bytes { target, bytes: b, mutations: muts.len() as u8, base: name }
         });
         let adv = (valid_world(Cfg { min_steps: 1, max_steps: 2, max_owners: 1, ..Cfg::basic() }), twist_strategy()).prop_map(|((world, owners), twist)| Spec::Adversarial { world, owners, twist });
-        prop_oneof![12 => bytes, 2 => adv, 2 => adversarial_rules().prop_map(|item| Spec::Rules { item })].boxed()
+        let command = (prop_oneof![Just(0u16), Just(1), Just(63), Just(64), Just(65), Just(100), Just(256), Just(1024)], prop_oneof![Just(0u16), Just(1), Just(64), Just(65), Just(256)], any::<bool>(), prop_oneof![3 => Just(0u8), 1 => any::<u8>()])
+            .prop_map(|(stderr_kib, stdout_kib, stderr_first, exit)| Spec::Command { stderr_kib, stdout_kib, stderr_first, exit });
+        prop_oneof![360 => bytes, 60 => adv, 60 => adversarial_rules().prop_map(|item| Spec::Rules { item }), 2 => command].boxed()
     }
     fn check(spec: &Spec, env: &mut Env) -> Outcome {
         let mut o = Outcome::new();
@@ -446,6 +485,76 @@ impl Property for C14 {
                         o.fail(format!("C14/panic/{}/{}", pi.site(), pi.message_class()), format!("panic at {}:{}: {} (target {:?})", pi.file, pi.line, pi.message, target), "a value or an error");
                     }
                 }
+            }
+            Spec::Command { stderr_kib, stdout_kib, stderr_first, exit } => {
+                o.class("run_command");
+                o.class(format!("run_command:stderr-{}KiB", if *stderr_kib > 64 { ">64" } else { "<=64" }));
+                o.nontrivial(format!("cmd|{}|{}|{}|{}", stderr_kib, stdout_kib, stderr_first, exit));
+                let e = format!("head -c {} /dev/zero | tr '\\0' e 1>&2", *stderr_kib as usize * 1024);
+                let so = format!("head -c {} /dev/zero | tr '\\0' o", *stdout_kib as usize * 1024);
+                let script = if *stderr_first { format!("{}; {}; exit {}", e, so, exit) } else { format!("{}; {}; exit {}", so, e, exit) };
+                let dir = env.fresh_dir("c14cmd");
+                let out = dir.join("result.json");
+                let exe = std::env::current_exe().expect("exe");
+                let mut child = std::process::Command::new(&exe)
+                    .arg("run-command")
+                    .arg(&out)
+                    .arg(&script)
+                    .stdin(std::process::Stdio::null())
+                    .stdout(std::process::Stdio::null())
+                    .stderr(std::process::Stdio::null())
+                    .spawn()
+                    .expect("spawn run-command");
+                let start = std::time::Instant::now();
+                let mut verdict: Option<String> = None;
+                loop {
+                    match child.try_wait() {
+                        Ok(Some(_)) => break,
+                        Ok(None) => {}
+                        Err(e) => panic!("harness: try_wait: {}", e),
+                    }
+                    let waited = start.elapsed().as_secs_f64();
+                    if waited > 10.0 {
+                        // not a time-out verdict: look at what the processes are blocked on. The library blocked in a pipe
+                        // read while the command it started is blocked in a pipe write cannot make progress any more.
+                        let ps = descendants(child.id());
+                        let lib_reads = ps.iter().any(|(pid, st, w)| *pid == child.id() && st == "S" && w.contains("pipe_read"));
+                        let cmd_writes = ps.iter().any(|(pid, st, w)| *pid != child.id() && st == "S" && w.contains("pipe_write"));
+                        if lib_reads && cmd_writes {
+                            // confirm the state is stable
+                            std::thread::sleep(std::time::Duration::from_millis(500));
+                            let ps2 = descendants(child.id());
+                            if ps2.iter().map(|(p, s, w)| (*p, s.clone(), w.clone())).collect::<Vec<_>>() == ps {
+                                verdict = Some(format!("after {:.0} s: library process blocked in a pipe read while its command is blocked in a pipe write ({:?})", waited, ps));
+                                break;
+                            }
+                        }
+                    }
+                    if waited > 180.0 {
+                        for (pid, _, _) in descendants(child.id()) {
+                            unsafe { libc::kill(pid as i32, libc::SIGKILL) };
+                        }
+                        let _ = child.wait();
+                        panic!("harness: run-command helper did not finish within 180 s and no pipe deadlock was seen");
+                    }
+                    std::thread::sleep(std::time::Duration::from_millis(20));
+                }
+                if let Some(v) = verdict {
+                    for (pid, _, _) in descendants(child.id()) {
+                        unsafe { libc::kill(pid as i32, libc::SIGKILL) };
+                    }
+                    let _ = child.wait();
+                    o.fail("C14/non-termination/run_command-pipe-deadlock", v, "run_command returns a value or an error");
+                } else {
+                    let text = std::fs::read_to_string(&out).unwrap_or_default();
+                    let r: serde_json::Value = serde_json::from_str(&text).unwrap_or(serde_json::Value::Null);
+                    if let Some(p) = r["panic"].as_str() {
+                        o.fail("C14/panic/run_command", p.to_string(), "a value or an error");
+                    } else if r.is_null() {
+                        o.fail("C14/abnormal-end/run_command", format!("the process calling run_command ended without a result (script {:?})", script), "a value or an error");
+                    }
+                }
+                let _ = std::fs::remove_dir_all(&dir);
             }
             Spec::Rules { item } => {
                 o.class("rules");
@@ -528,7 +637,7 @@ impl Property for C14 {
                                 tamper: None,
                                 links: vec![],
                             };
-                            w.links.push(LinkFile { step: sname, filed_under: k, name_field: None, body: Body::Sub { world: Box::new(inner), placement: Placement::Proper } });
+                            w.links.push(LinkFile { step: sname, filed_under: k, name_field: None, symlink_store: false, body: Body::Sub { world: Box::new(inner), placement: Placement::Proper } });
                         }
                     }
                     Twist::LayoutAsLink => {
